@@ -198,6 +198,13 @@ def _check(verif, repo, prop, tier, seed, use_cache, write_evidence, t0):
         he = r1['hard_errors'][0]
         raise Undecided('Verus rejected the extracted source (unsupported construct or type error): %s @ %s' % (
             he['msg'][:200], he.get('repo') or he.get('fn')))
+    # ---- the framework's own lemmas / spec items must verify: callers assume them ----
+    for e in r1['errors']:
+        if e.get('fn') is None:
+            where = [sp for sp in e['spans'] if sp['file'] == 'all.rs']
+            org = main_b.origin[where[0]['line'] - 1] if where else None
+            if org and org[0] in ('contract', 'prelude'):
+                raise Undecided('a lemma / spec item of the framework itself does not verify (%s:%s): %s' % (org[1], org[2], e['msg']))
     # ---- canary: every function in scope must fail its `assert(false)` ----
     failed_canaries = set(e.get('canary') for e in r2['errors'] if e.get('canary'))
     if r2['hard_errors']:
